@@ -96,6 +96,10 @@ func (n *NTTFriendlyPrimesGenerator) NextUpstreamPrime() (uint64, error) {
 	CheckNextPrime := n.CheckNextPrime
 	Size := n.Size
 
+	if !CheckNextPrime {
+		return 0, fmt.Errorf("cannot NextUpstreamPrime: prime list for upstream primes is exhausted (overlap with next bit-size or prime > 2^{64})")
+	}
+
 	for {
 		if CheckNextPrime {
 
@@ -130,6 +134,10 @@ func (n *NTTFriendlyPrimesGenerator) NextDownstreamPrime() (uint64, error) {
 	NthRoot := n.NthRoot
 	CheckPrevPrime := n.CheckPrevPrime
 	Size := n.Size
+
+	if !CheckPrevPrime {
+		return 0, fmt.Errorf("cannot NextDownstreamPrime: prime list for downstream primes is exhausted (overlap with previous bit-size or prime < NthRoot")
+	}
 
 	for {
 
